@@ -8,6 +8,7 @@ pub mod c12;
 pub mod c20;
 pub mod c06;
 pub mod c09;
+pub mod c09_header;
 pub mod c14;
 pub mod c05;
 pub mod c13;
